@@ -326,6 +326,25 @@ def run_case(desc):
                     bad = f"concurrent read #{i} of one mounted store object (of {T} overlapping reads) returned {_short(res_[1])}, written {_short(value)}"
                 if bad:
                     break
+        if bad is None and mount == "direct" and desc["seed"] % 3 == 1:
+            # the store's path is a symbolic link to the file that holds the value: the modified time is that of the VALUE (the link target),
+            # whenever the link itself was made
+            os.mkdir(os.path.join(tmp, "elsewhere"))
+            tgt = os.path.join(tmp, "elsewhere", "value.dat")
+            lnk = os.path.join(tmp, "link.dat")
+            make(tgt if pathkind == "str" else pathlib.Path(tgt)).write(value)
+            os.symlink(tgt, lnk)
+            T_t, T_l = 1_500_000_000 + r.randint(0, 10**6), 1_400_000_000 + r.randint(0, 10**6)
+            os.utime(tgt, (T_t, T_t))
+            os.utime(lnk, (T_l, T_l), follow_symlinks=False)
+            ls = make(lnk if pathkind == "str" else pathlib.Path(lnk))
+            got_l = ls.read()
+            mt_l = ls.get_modified_time()
+            if not deep_eq(got_l, value):
+                bad = "read() through a symbolic link returned a different value"
+            elif mt_l is None or abs(mt_l.timestamp() - T_t) > 1e-3:
+                bad = (f"get_modified_time() of a store whose path is a symbolic link is {mt_l!r} (instant {mt_l.timestamp() if mt_l else None}); the value it reads was "
+                       f"modified at {T_t} (the link itself at {T_l})")
         if bad is None and mount == "direct":
             # a stored file whose mtime is exactly the epoch (reproducible unpacking, ostree): still "something is stored"
             os.utime(base, (0, 0))
